@@ -38,10 +38,15 @@ type Solver struct {
 	decls   strings.Builder // declarations, definitions and assertions of the current path scope
 	OneShot int             // queries re-decided by a fresh non-incremental solver run
 	incrTO  int
-	defined map[*Term]string // terms defined in the current path scope
+	defined map[*Term]string // terms defined in the solver (persistent across paths: definitions are only names)
 	nextID  int
 	inScope bool
 	timeout int // ms per query
+	pcNames []string // names of the current path's assertions (passed as assumptions)
+	pcTerms []*Term
+	paths   int
+	pcFP    bool // the path condition contains floating-point terms
+	proxies map[*Term]string // activation literals: (assert (=> p t)), persistent like the definitions
 
 	// statistics
 	Queries, NSat, NUnsat, NUnknown int
@@ -114,33 +119,58 @@ func (s *Solver) dumpLog(tag string) {
 	}
 }
 
+var smtTee = os.Getenv("GOSYM_SMTTEE")
+
 func (s *Solver) flush() {
+	if smtTee != "" && s.buf.Len() > 0 {
+		f, _ := os.OpenFile(fmt.Sprintf("%s.%p", smtTee, s), os.O_APPEND|os.O_CREATE|os.O_WRONLY, 0o644)
+		f.WriteString(s.buf.String())
+		f.Close()
+	}
 	if s.buf.Len() > 0 {
 		io.WriteString(s.in, s.buf.String())
 		s.buf.Reset()
 	}
 }
 
-// BeginPath opens a fresh scope; every definition and assertion of the path lives in it.
+// BeginPath starts a new path: the path condition is kept as a list of named
+// boolean definitions that are passed as assumptions to every query, so that
+// term definitions survive from path to path (they are only abbreviations).
 func (s *Solver) BeginPath() {
-	if s.inScope {
-		s.EndPath()
-	}
+	s.pcNames = s.pcNames[:0]
+	s.pcTerms = s.pcTerms[:0]
+	s.pcFP = false
 	s.log.Reset()
-	s.decls.Reset()
-	s.send("(push 1)\n")
+	s.paths++
+	if len(s.defined) > 300000 || len(s.proxies) > 100000 {
+		s.restart()
+	}
 	s.inScope = true
 }
 
 func (s *Solver) EndPath() {
-	if s.inScope {
-		s.send("(pop 1)\n")
-		s.inScope = false
-		for k := range s.defined {
-			delete(s.defined, k)
-		}
-		s.nextID = 0
+	s.inScope = false
+}
+
+func (s *Solver) restart() {
+	kind := s.name
+	s.buf.Reset()
+	if s.cmd != nil {
+		s.in.Close()
+		s.cmd.Process.Kill()
+		s.cmd.Wait()
 	}
+	n, err := NewSolver(kind, s.timeout)
+	if err != nil {
+		s.Errors = append(s.Errors, "(error \"cannot restart solver: "+err.Error()+"\")")
+		return
+	}
+	s.cmd, s.in, s.out = n.cmd, n.in, n.out
+	s.buf.Reset()
+	s.buf.WriteString(n.buf.String())
+	s.defined = map[*Term]string{}
+	s.proxies = map[*Term]string{}
+	s.nextID = 0
 }
 
 func quoteSym(n string) string {
@@ -210,27 +240,146 @@ func (s *Solver) Assert(t *Term) {
 	if t.isConst() && t.k != 0 {
 		return
 	}
-	s.sendDecl("(assert " + s.ref(t) + ")\n")
+	s.pcNames = append(s.pcNames, s.proxy(t))
+	s.pcTerms = append(s.pcTerms, t)
+	if t.fp {
+		s.pcFP = true
+	}
 }
 
-func (s *Solver) sendDecl(cmd string) {
-	s.send(cmd)
-	s.decls.WriteString(cmd)
+// direct reports whether a query should skip the incremental solver: z3's
+// incremental core is very slow on floating-point obligations.
+func (s *Solver) direct(extra *Term) bool {
+	return extra != nil && extra.fp
+}
+
+func (s *Solver) sendDecl(cmd string) { s.send(cmd) }
+
+// proxy returns a boolean constant p with (=> p t) asserted once; assumptions
+// must be plain literals for the incremental core to work efficiently, and
+// because terms are hash-consed the same proxy serves every path that shares
+// the constraint.
+func (s *Solver) proxy(t *Term) string {
+	if s.proxies == nil {
+		s.proxies = map[*Term]string{}
+	}
+	if p, ok := s.proxies[t]; ok {
+		return p
+	}
+	n := s.ref(t)
+	if t.op == OpVar {
+		s.proxies[t] = n
+		return n
+	}
+	p := "p" + strconv.Itoa(len(s.proxies))
+	s.send("(declare-const " + p + " Bool)(assert (=> " + p + " " + n + "))\n")
+	s.proxies[t] = p
+	return p
+}
+
+func (s *Solver) assumptions(extra *Term) string {
+	var sb strings.Builder
+	for i, n := range s.pcNames {
+		if i > 0 {
+			sb.WriteByte(' ')
+		}
+		sb.WriteString(n)
+	}
+	if extra != nil {
+		if len(s.pcNames) > 0 {
+			sb.WriteByte(' ')
+		}
+		sb.WriteString(s.proxy(extra))
+	}
+	return sb.String()
+}
+
+// script renders a standalone SMT-LIB script asserting the given terms.
+func script(terms []*Term, vars []*Term) (string, []string) {
+	var sb strings.Builder
+	defined := map[*Term]string{}
+	id := 0
+	var ref func(t *Term) string
+	ref = func(t *Term) string {
+		if t.op == OpConst {
+			return constSMT(t)
+		}
+		if n, ok := defined[t]; ok {
+			return n
+		}
+		if t.op == OpVar {
+			n := quoteSym(t.name)
+			sb.WriteString(fmt.Sprintf("(declare-const %s %s)\n", n, t.sort.smt()))
+			defined[t] = n
+			return n
+		}
+		type item struct {
+			t    *Term
+			next int
+		}
+		stack := []item{{t, 0}}
+		for len(stack) > 0 {
+			it := &stack[len(stack)-1]
+			if it.next < len(it.t.a) {
+				c := it.t.a[it.next]
+				it.next++
+				if c.op != OpConst {
+					if _, ok := defined[c]; !ok {
+						if c.op == OpVar {
+							ref(c)
+						} else {
+							stack = append(stack, item{c, 0})
+						}
+					}
+				}
+				continue
+			}
+			cur := it.t
+			stack = stack[:len(stack)-1]
+			if _, ok := defined[cur]; ok {
+				continue
+			}
+			body := smtBody(cur, func(x *Term) string {
+				if x.op == OpConst {
+					return constSMT(x)
+				}
+				return defined[x]
+			})
+			n := "t" + strconv.Itoa(id)
+			id++
+			sb.WriteString(fmt.Sprintf("(define-fun %s () %s %s)\n", n, cur.sort.smt(), body))
+			defined[cur] = n
+		}
+		return defined[t]
+	}
+	for _, t := range terms {
+		sb.WriteString("(assert " + ref(t) + ")\n")
+	}
+	names := make([]string, len(vars))
+	for i, v := range vars {
+		names[i] = ref(v)
+	}
+	return sb.String(), names
 }
 
 // oneShot re-decides a query with a fresh, non-incremental solver process
 // (z3's incremental mode skips the preprocessing that floating-point and
 // wide bit-vector obligations need). vars != nil also retrieves a model.
-func (s *Solver) oneShot(extraName string, names []string, vars []*Term) (SatResult, []uint64) {
+func (s *Solver) oneShot(extra *Term, vars []*Term) (SatResult, []uint64) {
 	s.OneShot++
-	var sb strings.Builder
-	sb.WriteString(s.decls.String())
-	if extraName != "" {
-		sb.WriteString("(assert " + extraName + ")\n")
+	terms := append([]*Term(nil), s.pcTerms...)
+	if extra != nil {
+		terms = append(terms, extra)
 	}
+	body, names := script(terms, vars)
+	var sb strings.Builder
+	sb.WriteString(body)
 	sb.WriteString("(check-sat)\n")
 	if len(names) > 0 {
 		sb.WriteString("(get-value (" + strings.Join(names, " ") + "))\n")
+	}
+	if smtLogDir != "" {
+		os.WriteFile(fmt.Sprintf("%s/oneshot-%d-%d.smt2", smtLogDir, os.Getpid(), s.Queries), []byte(sb.String()), 0o644)
 	}
 	for _, bin := range []string{"z3", "z3-new"} {
 		cmd := exec.Command(bin, "-in", fmt.Sprintf("-T:%d", s.timeout/1000))
@@ -275,11 +424,21 @@ func (s *Solver) Check(extra *Term) SatResult {
 		extra = nil
 	}
 	start := time.Now()
-	if extra == nil {
-		s.send("(check-sat)\n")
-	} else {
-		s.send("(check-sat-assuming (" + s.ref(extra) + "))\n")
+	if s.direct(extra) {
+		s.Queries++
+		r, _ := s.oneShot(extra, nil)
+		switch r {
+		case Sat:
+			s.NSat++
+		case Unsat:
+			s.NUnsat++
+		default:
+			s.NUnknown++
+		}
+		s.Time += time.Since(start)
+		return r
 	}
+	s.send("(check-sat-assuming (" + s.assumptions(extra) + "))\n")
 	s.flush()
 	s.Queries++
 	var res SatResult
@@ -314,11 +473,7 @@ func (s *Solver) Check(extra *Term) SatResult {
 		break
 	}
 	if res == Unknown && len(s.Errors) == 0 {
-		name := ""
-		if extra != nil {
-			name = s.ref(extra)
-		}
-		if r, _ := s.oneShot(name, nil, nil); r != Unknown {
+		if r, _ := s.oneShot(extra, nil); r != Unknown {
 			s.NUnknown--
 			if r == Sat {
 				s.NSat++
@@ -345,15 +500,25 @@ func (s *Solver) CheckWithModel(extra *Term, vars []*Term) (SatResult, []uint64)
 		extra = nil
 	}
 	start := time.Now()
+	if s.direct(extra) {
+		s.Queries++
+		r, m := s.oneShot(extra, vars)
+		switch r {
+		case Sat:
+			s.NSat++
+		case Unsat:
+			s.NUnsat++
+		default:
+			s.NUnknown++
+		}
+		s.Time += time.Since(start)
+		return r, m
+	}
 	names := make([]string, len(vars))
 	for i, v := range vars {
 		names[i] = s.ref(v)
 	}
-	if extra != nil {
-		r := s.ref(extra)
-		s.send("(push 1)(assert " + r + ")\n")
-	}
-	s.send("(check-sat)\n")
+	s.send("(check-sat-assuming (" + s.assumptions(extra) + "))\n")
 	s.flush()
 	s.Queries++
 	res := Unknown
@@ -387,15 +552,8 @@ func (s *Solver) CheckWithModel(extra *Term, vars []*Term) (SatResult, []uint64)
 		txt := s.readSexp()
 		model = parseModel(txt, vars, names)
 	}
-	if extra != nil {
-		s.send("(pop 1)\n")
-	}
 	if res == Unknown && len(s.Errors) == 0 {
-		name := ""
-		if extra != nil {
-			name = s.ref(extra)
-		}
-		if r, m := s.oneShot(name, names, vars); r != Unknown {
+		if r, m := s.oneShot(extra, vars); r != Unknown {
 			s.NUnknown--
 			if r == Sat {
 				s.NSat++
